@@ -81,6 +81,13 @@ class Gen:
 		L = self.g_int(small = True)
 		V = self.g_buf(0)
 		V["len_from"] = L["name"]
+		if r.random() < 0.25:
+			# the whole length/value pair is optional, governed by an earlier flag
+			flag = self.g_int(small = True)
+			flag["is_flag"] = True
+			L["pres"] = flag["name"]
+			V["pres"] = flag["name"]
+			return [flag, L, V]
 		if r.random() < 0.5:
 			L["derive"] = ("len_of", V["name"])
 		return [L, V]
